@@ -435,6 +435,7 @@ func runC05(c *Ctx, r *Report) {
 	c05r9(c, r)   // no score cell is read that this call did not write
 	c05r10(c, r)  // ... including the back-trace's look-ahead
 	c05r11(c, r)
+	c08r13(c, r) // results do not depend on what was searched before a change of --nth / the exclusion list
 	c02r5(c, r)   // bytes vs runes: the byte-only pre-filter must not change the result
 	c04r3(c, r)   // order purity: merge must agree with the per-partition sort
 	c08r5(c, r)   // per-item tokens must not survive a change of --nth
